@@ -51,8 +51,27 @@ std::string hexld(long double v)
   return s;
 }
 
+bool draw_plain(false);  // drawfmt=1: draws as  D i:<lo>:<hi>:<v> (decimal) | D r:<bits>:<bits>:<bits> | D b:<bits p>:<0|1> | D d:<n>:<v>
+std::string dec(long double v)
+{
+  char buf[64];
+  std::snprintf(buf, sizeof(buf), "%.0Lf", v);
+  return buf;
+}
 void sink(char k, long double lo, long double hi, long double v)
 {
+  if (draw_plain)
+  {
+    tr_ += "D ";
+    tr_ += k;
+    if (k == 'i') tr_ += ":" + dec(lo) + ":" + dec(hi) + ":" + dec(v);
+    else if (k == 'r') tr_ += ":" + vv::hex64(vv::bits_of(static_cast<double>(lo))) + ":" + vv::hex64(vv::bits_of(static_cast<double>(hi)))
+                              + ":" + vv::hex64(vv::bits_of(static_cast<double>(v)));
+    else if (k == 'b') tr_ += ":" + vv::hex64(vv::bits_of(static_cast<double>(hi))) + ":" + dec(v);
+    else tr_ += ":" + dec(hi) + ":" + dec(v);
+    tr_ += "\n";
+    return;
+  }
   tr_ += "D ";
   tr_ += k;
   tr_ += " " + hexld(lo) + " " + hexld(hi) + " " + hexld(v) + "\n";
@@ -199,6 +218,7 @@ int run_sr(unsigned seed, const char *data, evaluator_id ev)
   prob.insert<real::mul>();
   prob.insert<real::ifl>();
   set_env(prob.env);
+  random::verif::draw_sink = sink;  // before seeding: no draw between the seed and the log may be missed
   random::seed(seed);
   src_search<i_mep, ES> s(prob);
   if (ev != evaluator_id::undefined)
@@ -225,6 +245,7 @@ void run_ga(unsigned seed)
           ++attacks;
     return {-attacks};
   };
+  random::verif::draw_sink = sink;  // before seeding: no draw between the seed and the log may be missed
   random::seed(seed);
   ga_search<decltype(f)> s(prob, f);
   s.after_generation([](const population<i_ga> &p, const summary<i_ga> &sm) { dump_generation(p, sm); });
@@ -246,6 +267,7 @@ void run_de(unsigned seed)
       r += xi * xi - 10.0 * std::cos(2 * 3.141592653589793 * xi);
     return -r;
   };
+  random::verif::draw_sink = sink;  // before seeding: no draw between the seed and the log may be missed
   random::seed(seed);
   de_search<decltype(f)> s(prob, f);
   s.after_generation([](const population<i_de> &p, const summary<i_de> &sm) { dump_generation(p, sm); });
@@ -272,6 +294,7 @@ std::unique_ptr<problem> setup_mep()
 
 void run_mep(unsigned seed, test_evaluator_type et, const problem &prob)
 {
+  random::verif::draw_sink = sink;  // before seeding: no draw between the seed and the log may be missed
   random::seed(seed);
   test_evaluator<i_mep> eva(et);
   evolution<i_mep, std_es> evo(prob, eva);
@@ -315,6 +338,7 @@ int main(int argc, char *argv[])
   sleep_gen = static_cast<long>(opt("sleepgen", -1));
   sleep_eval = static_cast<long>(opt("sleepeval", -1));
   sleep_ms = static_cast<long>(opt("sleepms", 0));
+  draw_plain = opt("drawfmt", 0) != 0;
 
   int rc(0);
   if (kind == "ga")
